@@ -60,12 +60,34 @@ theorem slotsNodup_enumSlots : ∀ (xs : List Val) (n : Nat), slotsNodup (enumSl
   | nil => intro n; rfl
   | cons x xs ih => intro n; simp [enumSlots, slotsNodup, Obj.nodup, ih]
 
+/-! ### entries of Trees without shared parts -/
+
+theorem entContents_valEnts : ∀ kvs : List (Val × Val), entContents (valEnts kvs) = kvs := by
+  intro kvs
+  induction kvs with
+  | nil => rfl
+  | cons p rest ih => obtain ⟨k, v⟩ := p; simp [valEnts, entContents, Obj.content, ih]
+
+theorem entsSize_valEnts : ∀ kvs : List (Val × Val), entsSize (valEnts kvs) = Val.sizePairs kvs := by
+  intro kvs
+  induction kvs with
+  | nil => rfl
+  | cons p rest ih => obtain ⟨k, v⟩ := p; simp [valEnts, entsSize, Obj.size, Val.sizePairs, ih]
+
+theorem entsNodup_valEnts : ∀ kvs : List (Val × Val), entsNodup (valEnts kvs) = true := by
+  intro kvs
+  induction kvs with
+  | nil => rfl
+  | cons p rest ih => obtain ⟨k, v⟩ := p; simp [valEnts, entsNodup, Obj.nodup, ih]
+
 /-! ### what a sequence view says about content, size and sharing -/
 
 theorem seqView_content {a : Obj} {k : SeqKind} {s : List Slot} (h : a.seqView = some (k, s)) :
     a.content = .seq k (contents s) := by
   cases a with
   | tuple ss => simp [Obj.seqView] at h; obtain ⟨rfl, rfl⟩ := h; simp [Obj.content]
+  | cont k' ss => simp [Obj.seqView] at h; obtain ⟨rfl, rfl⟩ := h; simp [Obj.content]
+  | tree es => simp [Obj.seqView] at h
   | val v =>
     cases v with
     | seq k' xs => simp [Obj.seqView] at h; obtain ⟨rfl, rfl⟩ := h; simp [Obj.content, contents_enumSlots]
@@ -75,6 +97,8 @@ theorem seqView_size {a : Obj} {k : SeqKind} {s : List Slot} (h : a.seqView = so
     a.size = 2 + slotsSize s := by
   cases a with
   | tuple ss => simp [Obj.seqView] at h; obtain ⟨rfl, rfl⟩ := h; simp [Obj.size]
+  | cont k' ss => simp [Obj.seqView] at h; obtain ⟨rfl, rfl⟩ := h; simp [Obj.size]
+  | tree es => simp [Obj.seqView] at h
   | val v =>
     cases v with
     | seq k' xs => simp [Obj.seqView] at h; obtain ⟨rfl, rfl⟩ := h; simp [Obj.size, Val.size, slotsSize_enumSlots]
@@ -86,12 +110,43 @@ theorem seqView_nodup {b : Obj} {k : SeqKind} {s : List Slot} (h : b.seqView = s
   | tuple ss =>
     simp [Obj.seqView] at h; obtain ⟨rfl, rfl⟩ := h
     simpa [Obj.nodup] using hb
+  | cont k' ss =>
+    simp [Obj.seqView] at h; obtain ⟨rfl, rfl⟩ := h
+    simpa [Obj.nodup] using hb
+  | tree es => simp [Obj.seqView] at h
   | val v =>
     cases v with
     | seq k' xs =>
       simp [Obj.seqView] at h; obtain ⟨rfl, rfl⟩ := h
       exact ⟨idsNodup_enumSlots xs 0, slotsNodup_enumSlots xs 0⟩
     | _ => simp [Obj.seqView] at h
+
+theorem treeView_content {a : Obj} {e : List (Val × Obj)} (h : a.treeView = some e) : a.content = .tree (entContents e) := by
+  cases a with
+  | tree es => simp [Obj.treeView] at h; subst h; simp [Obj.content]
+  | val v =>
+    cases v with
+    | tree kvs => simp [Obj.treeView] at h; subst h; simp [Obj.content, entContents_valEnts]
+    | _ => simp [Obj.treeView] at h
+  | _ => simp [Obj.treeView] at h
+
+theorem treeView_size {a : Obj} {e : List (Val × Obj)} (h : a.treeView = some e) : a.size = 2 + entsSize e := by
+  cases a with
+  | tree es => simp [Obj.treeView] at h; subst h; simp [Obj.size]
+  | val v =>
+    cases v with
+    | tree kvs => simp [Obj.treeView] at h; subst h; simp [Obj.size, Val.size, entsSize_valEnts]
+    | _ => simp [Obj.treeView] at h
+  | _ => simp [Obj.treeView] at h
+
+theorem treeView_nodup {b : Obj} {e : List (Val × Obj)} (h : b.treeView = some e) (hb : b.nodup = true) : entsNodup e = true := by
+  cases b with
+  | tree es => simp [Obj.treeView] at h; subst h; simpa [Obj.nodup] using hb
+  | val v =>
+    cases v with
+    | tree kvs => simp [Obj.treeView] at h; subst h; exact entsNodup_valEnts kvs
+    | _ => simp [Obj.treeView] at h
+  | _ => simp [Obj.treeView] at h
 
 theorem Val.size_pos (v : Val) : 1 ≤ v.size := by
   cases v <;> simp [Val.size] <;> omega
@@ -100,6 +155,8 @@ theorem Obj.size_pos (a : Obj) : 1 ≤ a.size := by
   cases a with
   | val v => simpa [Obj.size] using Val.size_pos v
   | tuple ss => simp [Obj.size]; omega
+  | cont k ss => simp [Obj.size]; omega
+  | tree es => simp [Obj.size]; omega
 
 /-! ### an identity walk over pairwise distinct objects is the walk by position -/
 
@@ -167,30 +224,81 @@ theorem seqCmp_cons_cons (ops : FloatOps UInt64) (x y : Val) (xs ys : List Val) 
       (if valCmp ops x y < 0 then -1 else if valCmp ops x y > 0 then 1 else seqCmp ops xs ys) := by
   simp [seqCmp]
 
+theorem entriesCmp_cons_cons (ops : FloatOps UInt64) (p q : Val × Val) (xs ys : List (Val × Val)) :
+    entriesCmp ops (p :: xs) (q :: ys) =
+      (if valCmp ops p.1 q.1 < 0 then -1 else if valCmp ops p.1 q.1 > 0 then 1 else
+       if valCmp ops p.2 q.2 < 0 then -1 else if valCmp ops p.2 q.2 > 0 then 1 else entriesCmp ops xs ys) := by
+  obtain ⟨k, v⟩ := p; obtain ⟨k', v'⟩ := q
+  simp [entriesCmp]
+
+/-- the three branches of `objCmpF` -/
+theorem objCmpF_seq (D : Discipline) (ops : FloatOps UInt64) (f : Nat) {a b : Obj} {k0 k1 : SeqKind} {s0 s1 : List Slot}
+    (ha : a.seqView = some (k0, s0)) (hb : b.seqView = some (k1, s1)) :
+    objCmpF D ops (f + 1) a b = loopF D ops k0 k1 s0 s1 f s0 s1 := by
+  rw [objCmpF, ha, hb]
+
+theorem objCmpF_tree (D : Discipline) (ops : FloatOps UInt64) (f : Nat) {a b : Obj} {e0 e1 : List (Val × Obj)}
+    (hs : a.seqView = none ∨ b.seqView = none) (ha : a.treeView = some e0) (hb : b.treeView = some e1) :
+    objCmpF D ops (f + 1) a b = treeLoopF D ops f e0 e1 := by
+  rw [objCmpF]
+  rcases hs with hs | hs
+  · rw [hs, ha, hb]
+  · cases h : a.seqView <;> rw [hs, ha, hb]
+
+theorem objCmpF_other (D : Discipline) (ops : FloatOps UInt64) (f : Nat) {a b : Obj}
+    (hs : a.seqView = none ∨ b.seqView = none) (ht : a.treeView = none ∨ b.treeView = none) :
+    objCmpF D ops (f + 1) a b = some (valCmp ops a.content b.content) := by
+  rw [objCmpF]
+  have inner : (match a.treeView, b.treeView with
+      | some e0, some e1 => treeLoopF D ops f e0 e1
+      | _, _ => some (valCmp ops a.content b.content)) = some (valCmp ops a.content b.content) := by
+    rcases ht with ht | ht
+    · rw [ht]
+    · cases h : a.treeView <;> rw [ht]
+  rcases hs with hs | hs
+  · rw [hs]; exact inner
+  · cases h : a.seqView
+    · exact inner
+    · rw [hs]; exact inner
+
 theorem objCmpF_sound_aux (D : Discipline) (ops : FloatOps UInt64) (hD : D.tupleSelf = .byIndex) : ∀ f : Nat,
     (∀ a b r, b.nodup = true → objCmpF D ops f a b = some r → r = valCmp ops a.content b.content) ∧
     (∀ k0 k1 all0 pre cur0 cur1 r, idsNodup (pre ++ cur1) = true → slotsNodup cur1 = true →
-      loopF D ops k0 k1 all0 (pre ++ cur1) f cur0 cur1 = some r → r = seqCmp ops (contents cur0) (contents cur1)) := by
+      loopF D ops k0 k1 all0 (pre ++ cur1) f cur0 cur1 = some r → r = seqCmp ops (contents cur0) (contents cur1)) ∧
+    (∀ e0 e1 r, entsNodup e1 = true → treeLoopF D ops f e0 e1 = some r →
+      r = entriesCmp ops (entContents e0) (entContents e1)) := by
   intro f
   induction f with
   | zero =>
-    refine ⟨fun a b r _ h => ?_, fun k0 k1 all0 pre cur0 cur1 r _ _ h => ?_⟩
+    refine ⟨fun a b r _ h => ?_, fun k0 k1 all0 pre cur0 cur1 r _ _ h => ?_, fun e0 e1 r _ h => ?_⟩
     · simp [objCmpF] at h
     · simp [loopF] at h
+    · simp [treeLoopF] at h
   | succ f ih =>
-    obtain ⟨ihP, ihQ⟩ := ih
-    refine ⟨fun a b r hb h => ?_, fun k0 k1 all0 pre cur0 cur1 r hn hs h => ?_⟩
-    · rw [objCmpF] at h
+    obtain ⟨ihP, ihQ, ihT⟩ := ih
+    refine ⟨fun a b r hb h => ?_, fun k0 k1 all0 pre cur0 cur1 r hn hs h => ?_, fun e0 e1 r hn h => ?_⟩
+    · -- pairs that are not two sequences: two Trees, or anything else
+      have tail : (a.seqView = none ∨ b.seqView = none) → r = valCmp ops a.content b.content := by
+        intro hs
+        cases hta : a.treeView with
+        | none => rw [objCmpF_other D ops f hs (Or.inl hta)] at h; simp at h; exact h.symm
+        | some e0 =>
+          cases htb : b.treeView with
+          | none => rw [objCmpF_other D ops f hs (Or.inr htb)] at h; simp at h; exact h.symm
+          | some e1 =>
+            rw [objCmpF_tree D ops f hs hta htb] at h
+            have := ihT e0 e1 r (treeView_nodup htb hb) h
+            rw [treeView_content hta, treeView_content htb, valCmp]
+            exact this
       cases ha' : a.seqView with
-      | none => rw [ha'] at h; simp at h; exact h.symm
+      | none => exact tail (Or.inl ha')
       | some p0 =>
         obtain ⟨k0, s0⟩ := p0
         cases hb' : b.seqView with
-        | none => rw [ha', hb'] at h; simp at h; exact h.symm
+        | none => exact tail (Or.inr hb')
         | some p1 =>
           obtain ⟨k1, s1⟩ := p1
-          rw [ha', hb'] at h
-          simp only at h
+          rw [objCmpF_seq D ops f ha' hb'] at h
           obtain ⟨hn, hs⟩ := seqView_nodup hb' hb
           have := ihQ k0 k1 s0 [] s0 s1 r (by simpa using hn) hs (by simpa using h)
           rw [seqView_content ha', seqView_content hb', valCmp]
@@ -228,6 +336,39 @@ theorem objCmpF_sound_aux (D : Discipline) (ops : FloatOps UInt64) (hD : D.tuple
                 have hn' : idsNodup ((pre ++ [(i1, o1)]) ++ r1) = true := by simpa using hn
                 have h' : loopF D ops k0 k1 all0 ((pre ++ [(i1, o1)]) ++ r1) f r0 r1 = some r := by simpa using h
                 exact ihQ k0 k1 all0 (pre ++ [(i1, o1)]) r0 r1 r hn' hs.2 h'
+    · cases e0 with
+      | nil =>
+        cases e1 with
+        | nil => simp [treeLoopF] at h; simp [entContents, entriesCmp, h]
+        | cons q1 r1 => obtain ⟨k1, o1⟩ := q1; simp [treeLoopF] at h; simp [entContents, entriesCmp, h]
+      | cons q0 r0 =>
+        obtain ⟨k0, o0⟩ := q0
+        cases e1 with
+        | nil => simp [treeLoopF] at h; simp [entContents, entriesCmp, h]
+        | cons q1 r1 =>
+          obtain ⟨k1, o1⟩ := q1
+          simp only [entsNodup, Bool.and_eq_true] at hn
+          rw [treeLoopF] at h
+          simp only at h
+          simp only [entContents, entriesCmp_cons_cons]
+          by_cases g1 : valCmp ops k0 k1 < 0
+          · simp [g1] at h ⊢; exact h.symm
+          · by_cases g2 : valCmp ops k0 k1 > 0
+            · simp [g1, g2] at h ⊢; exact h.symm
+            · simp only [g1, g2, if_false] at h ⊢
+              cases hc : objCmpF D ops f o0 o1 with
+              | none => rw [hc] at h; simp at h
+              | some c =>
+                rw [hc] at h
+                simp only at h
+                have hcv := ihP o0 o1 c hn.1 hc
+                rw [← hcv]
+                by_cases h1 : c < 0
+                · simp [h1] at h ⊢; exact h.symm
+                · by_cases h2 : c > 0
+                  · simp [h1, h2] at h ⊢; exact h.symm
+                  · simp only [h1, h2, if_false] at h ⊢
+                    exact ihT r0 r1 r hn.2 h
 
 theorem objCmpF_sound (D : Discipline) (ops : FloatOps UInt64) (hD : D.tupleSelf = .byIndex) (f : Nat) (a b : Obj) (r : Int)
     (hb : b.nodup = true) (h : objCmpF D ops f a b = some r) : r = valCmp ops a.content b.content :=
@@ -237,26 +378,38 @@ theorem objCmpF_sound (D : Discipline) (ops : FloatOps UInt64) (hD : D.tupleSelf
 
 theorem objCmpF_terminates_aux (D : Discipline) (ops : FloatOps UInt64) (hD : D.tupleSelf = .byIndex) : ∀ f : Nat,
     (∀ a b, a.size ≤ f → (objCmpF D ops f a b).isSome = true) ∧
-    (∀ k0 k1 all0 all1 cur0 cur1, 1 + slotsSize cur0 ≤ f → (loopF D ops k0 k1 all0 all1 f cur0 cur1).isSome = true) := by
+    (∀ k0 k1 all0 all1 cur0 cur1, 1 + slotsSize cur0 ≤ f → (loopF D ops k0 k1 all0 all1 f cur0 cur1).isSome = true) ∧
+    (∀ e0 e1, 1 + entsSize e0 ≤ f → (treeLoopF D ops f e0 e1).isSome = true) := by
   intro f
   induction f with
   | zero =>
-    refine ⟨fun a b h => ?_, fun k0 k1 all0 all1 cur0 cur1 h => ?_⟩
+    refine ⟨fun a b h => ?_, fun k0 k1 all0 all1 cur0 cur1 h => ?_, fun e0 e1 h => ?_⟩
     · have := Obj.size_pos a; omega
     · omega
+    · omega
   | succ f ih =>
-    obtain ⟨ihP, ihQ⟩ := ih
-    refine ⟨fun a b h => ?_, fun k0 k1 all0 all1 cur0 cur1 h => ?_⟩
-    · rw [objCmpF]
+    obtain ⟨ihP, ihQ, ihT⟩ := ih
+    refine ⟨fun a b h => ?_, fun k0 k1 all0 all1 cur0 cur1 h => ?_, fun e0 e1 h => ?_⟩
+    · have tail : (a.seqView = none ∨ b.seqView = none) → (objCmpF D ops (f + 1) a b).isSome = true := by
+        intro hs
+        cases hta : a.treeView with
+        | none => rw [objCmpF_other D ops f hs (Or.inl hta)]; rfl
+        | some e0 =>
+          cases htb : b.treeView with
+          | none => rw [objCmpF_other D ops f hs (Or.inr htb)]; rfl
+          | some e1 =>
+            rw [objCmpF_tree D ops f hs hta htb]
+            have := treeView_size hta
+            exact ihT e0 e1 (by omega)
       cases ha' : a.seqView with
-      | none => simp
+      | none => exact tail (Or.inl ha')
       | some p0 =>
         obtain ⟨k0, s0⟩ := p0
         cases hb' : b.seqView with
-        | none => simp
+        | none => exact tail (Or.inr hb')
         | some p1 =>
           obtain ⟨k1, s1⟩ := p1
-          simp only
+          rw [objCmpF_seq D ops f ha' hb']
           have := seqView_size ha'
           exact ihQ k0 k1 s0 s1 s0 s1 (by omega)
     · cases cur0 with
@@ -282,6 +435,34 @@ theorem objCmpF_terminates_aux (D : Discipline) (ops : FloatOps UInt64) (hD : D.
               · simp [h1, h2]
               · simp only [h1, h2, if_false]
                 exact ihQ k0 k1 all0 all1 r0 _ (by omega)
+    · cases e0 with
+      | nil => cases e1 <;> simp [treeLoopF]
+      | cons q0 r0 =>
+        obtain ⟨k0, o0⟩ := q0
+        cases e1 with
+        | nil => simp [treeLoopF]
+        | cons q1 r1 =>
+          obtain ⟨k1, o1⟩ := q1
+          simp only [entsSize] at h
+          rw [treeLoopF]
+          simp only
+          by_cases g1 : valCmp ops k0 k1 < 0
+          · simp [g1]
+          · by_cases g2 : valCmp ops k0 k1 > 0
+            · simp [g1, g2]
+            · simp only [g1, g2, if_false]
+              have he := ihP o0 o1 (by omega)
+              have hpos := Obj.size_pos o0
+              cases hc : objCmpF D ops f o0 o1 with
+              | none => rw [hc] at he; simp at he
+              | some c =>
+                simp only
+                by_cases h1 : c < 0
+                · simp [h1]
+                · by_cases h2 : c > 0
+                  · simp [h1, h2]
+                  · simp only [h1, h2, if_false]
+                    exact ihT r0 r1 (by omega)
 
 theorem objCmpF_terminates (D : Discipline) (ops : FloatOps UInt64) (hD : D.tupleSelf = .byIndex) (f : Nat) (a b : Obj)
     (h : a.size ≤ f) : (objCmpF D ops f a b).isSome = true :=
@@ -314,7 +495,7 @@ theorem loopF_stuck (D : Discipline) (ops : FloatOps UInt64) (k0 k1 : SeqKind) (
     | zero => simp [objCmpF]
     | succ f' =>
       have e : objCmpF D ops (f' + 1) (.val (.int v)) (.val (.int v)) = some 0 := by
-        simp [objCmpF, Obj.seqView, Obj.content, valCmp, hz]
+        simp [objCmpF, Obj.seqView, Obj.treeView, Obj.content, valCmp, hz]
       rw [e]
       simp only [Int.lt_irrefl, if_false, gt_iff_lt]
       rw [h0, h1]
